@@ -114,6 +114,9 @@ def _aw_gather(E, v, node):
     if len(a) == 1 and isinstance(a[0], VStar):
         seq = a[0].seq
         if rex is not True:
+            h = E.builtins.get('__gather_first_failure_wins__')
+            if h is not None:
+                return h(E, v, node)
             raise Unsupported('gather(*abstract) without return_exceptions=True', node)
         R = OUTCOMES(seq)
         E.assume(z3.Length(R) == z3.Length(seq))
